@@ -18,11 +18,13 @@ pub struct Naming {
     pub label: &'static str,
     /// names to intern (in this order) before the history starts; empty = names are parsed lazily when first used
     pub intern_first: Vec<usize>,
+    /// how the slot names written inside rewrite rules ($x, $y, $z, $a ..) are spelled under this naming (0 = unchanged)
+    pub rule_style: usize,
 }
 
 impl Naming {
     pub fn neutral() -> Naming {
-        Naming { names: (0..16).map(|i| format!("p{i}")).collect(), bound_prefix: "b".into(), label: "neutral", intern_first: vec![] }
+        Naming { names: (0..16).map(|i| format!("p{i}")).collect(), bound_prefix: "b".into(), label: "neutral", intern_first: vec![], rule_style: 0 }
     }
     pub fn random(r: &mut Rng) -> Naming {
         let k = r.below(7);
@@ -48,7 +50,41 @@ impl Naming {
             intern_first = (0..16).collect();
             r.shuffle(&mut intern_first);
         }
-        Naming { names, bound_prefix, label, intern_first }
+        let rule_style = r.below(4);
+        Naming { names, bound_prefix, label, intern_first, rule_style }
+    }
+    /// rename the slot names inside a rule text consistently (order-reversing numeric, fresh-like, reversed textual)
+    pub fn rule_text(&self, t: &str) -> String {
+        if self.rule_style == 0 {
+            return t.to_string();
+        }
+        let mut out = String::new();
+        let mut chars = t.chars().peekable();
+        while let Some(c) = chars.next() {
+            if c == '$' {
+                let mut name = String::new();
+                while let Some(d) = chars.peek() {
+                    if d.is_alphanumeric() {
+                        name.push(*d);
+                        chars.next();
+                    } else {
+                        break;
+                    }
+                }
+                // x,y,z,a,b,c,d,... -> index by first letter (alphabetical), spelled so that the order is reversed
+                let k = name.bytes().next().map(|b| (b as u32).saturating_sub(b'a' as u32)).unwrap_or(0);
+                let new = match self.rule_style {
+                    1 => format!("{}", 900 - k),
+                    2 => format!("f{}", 9000 - 7 * k),
+                    _ => format!("r{}", (b'z' - (k as u8).min(25)) as char),
+                };
+                out.push('$');
+                out.push_str(&new);
+            } else {
+                out.push(c);
+            }
+        }
+        out
     }
     pub fn prepare(&self) {
         for i in &self.intern_first {
@@ -182,7 +218,7 @@ pub fn execute(h: &MHist, nm: &Naming, order: &[usize], flips: &[bool]) -> Resul
             }
             MOp::Rewrite(rs) => {
                 if eg.total_number_of_nodes() < 90 {
-                    let rws: Vec<Rewrite<LSym>> = rs.iter().map(|i| Rewrite::new(&h.rules[*i].0, &h.rules[*i].1, &h.rules[*i].2)).collect();
+                    let rws: Vec<Rewrite<LSym>> = rs.iter().map(|i| Rewrite::new(&h.rules[*i].0, &nm.rule_text(&h.rules[*i].1), &nm.rule_text(&h.rules[*i].2))).collect();
                     apply_rewrites(&mut eg, &rws);
                 }
             }
@@ -464,9 +500,9 @@ pub fn c11_case(rng: &mut Rng, lazy_f_names: bool) -> CaseOut {
         // hygiene lane of C17: user names f0.. / numeric 0.., first parsed when the operation needs them,
         // i.e. after internal fresh slots with the same printed names exist
         nb = if rng.chance(1, 2) {
-            Naming { names: (0..16).map(|i| format!("f{}", i)).collect(), bound_prefix: "f".into(), label: "lazy-fresh-like", intern_first: vec![] }
+            Naming { names: (0..16).map(|i| format!("f{}", i)).collect(), bound_prefix: "f".into(), label: "lazy-fresh-like", intern_first: vec![], rule_style: 2 }
         } else {
-            Naming { names: (0..16).map(|i| format!("{}", i)).collect(), bound_prefix: "".into(), label: "lazy-numeric", intern_first: vec![] }
+            Naming { names: (0..16).map(|i| format!("{}", i)).collect(), bound_prefix: "".into(), label: "lazy-numeric", intern_first: vec![], rule_style: 1 }
         };
     }
     let na = Naming::neutral();
